@@ -60,6 +60,8 @@ pub enum Root {
     Loopback,
     /// Admin key, A and B created with their own keys.
     AdminAB,
+    /// Admin key, A created with its own key (the only binding).
+    AdminA,
 }
 
 impl Root {
@@ -68,10 +70,11 @@ impl Root {
             Root::Admin => "admin",
             Root::Loopback => "loopback",
             Root::AdminAB => "admin+A(key)+B(key)",
+            Root::AdminA => "admin+A(key)",
         }
     }
     pub fn parse(s: &str) -> Option<Root> {
-        [Root::Admin, Root::Loopback, Root::AdminAB].into_iter().find(|r| r.as_str() == s)
+        [Root::Admin, Root::Loopback, Root::AdminAB, Root::AdminA].into_iter().find(|r| r.as_str() == s)
     }
     pub fn has_admin(&self) -> bool {
         !matches!(self, Root::Loopback)
@@ -81,6 +84,7 @@ impl Root {
         match self {
             Root::Admin | Root::Loopback => vec![],
             Root::AdminAB => vec![Event::Create { db: 0, key: true }, Event::Create { db: 1, key: true }],
+            Root::AdminA => vec![Event::Create { db: 0, key: true }],
         }
     }
 }
